@@ -245,6 +245,25 @@ def _run_task(task):
         return dict(ci=ci, ki=ki, error=f"{type(ex).__name__}: {ex}", trace=traceback.format_exc()[-3000:])
 
 
+def _replay_or_search(check, name, model, rec, tier):
+    """replay of the counter-model on the real code; when that gives no failing input, the bounded native search
+    registered for the obligation's property area (a failing input it finds is a real failing run)"""
+    cand = check.replay(name, model, rec)
+    if cand and cand.get("reproduced"):
+        return cand
+    try:
+        from checks import native
+        found = native.search_for(name, tier)
+    except ImportError:
+        found = None
+    if found and found.get("reproduced"):
+        found["how"] = "bounded native search of the real code (the counter-model itself was not concretised)"
+        return found
+    if cand is None and found is not None:
+        return found
+    return cand
+
+
 def _explained_by_known(ob, ks, timeout_ms) -> bool:
     """The failing instance is a listed finding iff it is sat and becomes unsat once every listed class is
     excluded; a failure outside the listed classes is reported normally."""
@@ -544,7 +563,7 @@ def run_check(check: Check, tier: str = "quick", seed: int = 0) -> int:
             confirmed = None
             for m2, r2 in d.get("candidates", [])[:6]:
                 try:
-                    cand = check.replay(name, m2 or {}, r2)
+                    cand = _replay_or_search(check, name, m2 or {}, r2, tier)
                 except Exception:
                     cand = None
                 if cand and cand.get("reproduced"):
@@ -568,7 +587,7 @@ def run_check(check: Check, tier: str = "quick", seed: int = 0) -> int:
         rep, model, rec = None, (pairs[0][0] or {}), pairs[0][1]
         for m2, r2 in pairs[:6]:
             try:
-                cand = check.replay(name, m2 or {}, r2)
+                cand = _replay_or_search(check, name, m2 or {}, r2, tier)
             except Exception as ex:
                 cand = dict(reproduced=False, error=f"{type(ex).__name__}: {ex}", trace=traceback.format_exc()[-1500:])
             if rep is None:
@@ -606,6 +625,13 @@ def run_check(check: Check, tier: str = "quick", seed: int = 0) -> int:
                     violations.append(dict(obligation=nm, replay=rpath, reproduced=True))
         except Exception as ex:
             errors.append(f"bounded stand-in crashed: {type(ex).__name__}: {ex}")
+    # functions that left the interpreted subset (or whose proof script no longer matches the code) and are decided by a
+    # passing bounded native stand-in: labelled bounded, never counted as proved
+    bounded_decided = []
+    if undecided and not violations:
+        covers = [c for r in stand_in_report if not r.get("reproduced") for c in (r.get("covers") or "").split("|") if c]
+        bounded_decided = [u for u in undecided if "solver returned unknown" not in u and any(c in u for c in covers)]
+        undecided = [u for u in undecided if u not in bounded_decided]
     # canaries (A3): each rewrite of the current source must make an obligation fail
     canary_report = []
     for ci, c in enumerate(canaries):
@@ -677,7 +703,7 @@ def run_check(check: Check, tier: str = "quick", seed: int = 0) -> int:
         exit_code = 1
         for l in out_lines:
             print(l)
-    elif errors and not (undecided and all(e.startswith("canary ") for e in errors)):
+    elif errors and not ((undecided or bounded_decided) and all(e.startswith("canary ") for e in errors)):
         exit_code = 3
         for e in errors:
             print(f"CHECKER-ERROR property={prop} {e}")
@@ -685,6 +711,8 @@ def run_check(check: Check, tier: str = "quick", seed: int = 0) -> int:
         exit_code = 2
         for u in undecided:
             print(f"UNDECIDED property={prop} {u}")
+    for u in bounded_decided:
+        print(f"BOUNDED property={prop} not proved, decided by the bounded native stand-in only: {u}")
     samples = []
     for name, d in sorted(by.items())[:12]:
         samples.append(dict(obligation=name, instances=d["instances"], verdict="discharged" if d["sat"] == 0 and
@@ -710,6 +738,7 @@ def run_check(check: Check, tier: str = "quick", seed: int = 0) -> int:
         known_findings_matched=known_hits,
         fixed_entries=[f"{f['commit']} {f['text']}" for f in fixed],
         undecided=undecided,
+        decided_by_bounded_stand_in_only=bounded_decided,
         checker_errors=errors,
         canaries=canary_report,
         audits_bounded=audit_report,
@@ -719,8 +748,10 @@ def run_check(check: Check, tier: str = "quick", seed: int = 0) -> int:
         samples=samples,
         explanation=check.title,
     )
-    write_evidence(check, tier, seed, t0, cov, violations=len(violations))
+    write_evidence(check, tier, seed, t0, cov, violations=len(violations), downgraded=bool(bounded_decided))
     status = {0: "HELD", 1: "VIOLATION", 2: "UNDECIDED", 3: "CHECKER-ERROR"}[exit_code]
+    if exit_code == 0 and bounded_decided:
+        status = f"HELD (of which {len(bounded_decided)} function(s) by bounded stand-in only, not proved)"
     print(f"[{prop}] {status}: {discharged}/{len(by)} obligations discharged "
           f"({sum(d['instances'] for d in by.values())} instances, "
           f"{sum(fr.paths for fr in fresults)} paths), canaries "
@@ -729,11 +760,12 @@ def run_check(check: Check, tier: str = "quick", seed: int = 0) -> int:
     return exit_code
 
 
-def write_evidence(check: Check, tier, seed, t0, coverage, violations=0):
+def write_evidence(check: Check, tier, seed, t0, coverage, violations=0, downgraded=False):
     # evidence/ always describes /repo itself; runs against another tree (VERIF_REPO=...) go to evidence_alt/
     edir = "evidence" if os.environ.get("VERIF_REPO", "/repo") == "/repo" else "evidence_alt"
     os.makedirs(os.path.join(VERIF, edir), exist_ok=True)
-    ev = dict(property_id=check.prop, tier=tier, seed=int(seed), level=check.level, coverage=coverage,
+    # a run in which some function was decided by a bounded stand-in only is not a proof-level run
+    ev = dict(property_id=check.prop, tier=tier, seed=int(seed), level=("other" if downgraded else check.level), coverage=coverage,
               assumptions=list(check.assumptions) + list(check.trusted), wall_s=round(time.time() - t0, 2),
               violations=violations)
     with open(os.path.join(VERIF, edir, f"{check.prop}.json"), "w") as f:
